@@ -24,7 +24,10 @@ LEVEL_TEXT = ("Proof by refinement: for every operation history (any length) on 
               "__next__ / get_event_counts / get_expected_rates / spatial_counts / magnitude_counts / the catalog tests' "
               "use of the forecast yields exactly the outputs of the specification 'the fixed list of once-filtered "
               "catalogs' (induction over the history with an explicit invariant); expected rates are the per-bin totals "
-              "over n_cat and are returned identically. Tied to the code by exhaustive short histories over all "
+              "over n_cat and are returned identically. Round 4: the alphabet has all six catalog evaluations (one- and "
+              "two-pass), streamed forecasts may be constructed with any n_cat, the once-filtered list is derived from "
+              "the code-shaped sequence filter(statements) -> apply_mct -> filter_spatial on raw events, an aborted pass "
+              "is characterised for every cut. Tied to the code by exhaustive short histories over all "
               "configurations and sampled long ones.")
 LEVEL_NOTE = ("an event is abstracted to (survives the filters, bin index); Catalog.filter / filter_spatial / "
               "spatial_magnitude_counts themselves belong to C04/C01/C03; the file decoder to C12; the statistics of the "
@@ -37,7 +40,13 @@ THEOREMS = ["ForecastIter.refines_spec", "ForecastIter.refines_spec_list", "Fore
             "ForecastIter.eventCounts_single_pass", "ForecastIter.nCat_correct", "ForecastIter.sources_agree",
             "ForecastIter.pass_spec", "ForecastIter.step_spec", "ForecastIter.finding_aborted_pass_not_restarted",
             "ForecastIter.payload_irrelevant", "ForecastIter.ids_none_all_survive",
-            "ForecastIter.carried_filters_still_applied", "ForecastIter.expectedRates_on_forecast_grid"]
+            "ForecastIter.carried_filters_still_applied", "ForecastIter.expectedRates_on_forecast_grid",
+            # round 4
+            "ForecastIter.refines_spec_stream_any_ncat", "ForecastIter.stream_ncat_irrelevant",
+            "ForecastIter.two_pass_evaluations_see_one_forecast", "ForecastIter.refines_spec_cfg",
+            "ForecastIter.cfg_filters_exactly_once", "ForecastIter.filter_order_irrelevant",
+            "ForecastIter.filtered_absCat", "ForecastIter.aborted_pass_characterised",
+            "ForecastIter.list_wrong_ncat_always_fails"]
 TRUSTED = ["Lean 4.33 kernel", "axioms: propext, Classical.choice, Quot.sound at most",
            "Catalog.filter(statements) / filter_spatial(region) keep exactly the satisfying events, in place, and are "
            "idempotent (C04); spatial_magnitude_counts counts every event once in its bin (C03); load_ascii_catalogs "
@@ -55,6 +64,12 @@ RULE = ("forecasts of 1..6 catalogs (0..4 events each, empty catalogs written as
         "with equal / different shape, same cells in another order, larger lattice, bound by a previous forecast with "
         "another region, unbound from a loader}; catalogs constructed with filters= {the forecast's statements (equal "
         "list / the same list object), other statements}. "
+        "Round 4: the operation alphabet also has pseudolikelihood_test, resampled_magnitude_test and "
+        "MLL_magnitude_test (seeded; expected rates if absent, then one resp. two passes); streamed sources (file, "
+        "custom loader, generator object) constructed with n_cat= smaller / larger than / equal to the number of "
+        "catalogs; apply_mct on/off with a mainshock event, events before the mainshock, inside the incompleteness "
+        "window (small and large magnitudes) and after the critical time, crossed with the magnitude statement and the "
+        "spatial filter (model: raw events with one flag per configured filter, c13_runcfg). "
         "A history is non-trivial when it has >= 2 operations; distinct by (configuration, variant, catalogs, ops)")
 
 # sub-classes on which the UNCHANGED library does not behave as one would wish and for which a decision is pending:
@@ -64,10 +79,23 @@ AWAITING_DECISION = [
     # region): the catalog spatial / magnitude tests bin the re-created catalogs on THEIR region (IndexError /
     # ValueError / silently other numbers); passes, counts, n_cat and expected rates are right and are checked
     "loader-nostore:region-not-bound-by-loader:catalog-tests",
+    # GENUINE-DEFECT CANDIDATE (round 4): Catalog.apply_mct reads times[0] of an EMPTY catalog (IndexError), so a forecast
+    # with apply_filters=True, apply_mct=True cannot be iterated when a catalog is empty or emptied by the magnitude
+    # statement. While the entry is listed, the apply_mct generator keeps one event per catalog that reaches apply_mct.
+    "apply_mct:empty-catalog-reaches-apply_mct",
 ]
 
 OPS = ["P", "E", "R", "S", "M"]
 TESTS = ["N", "TS", "TM"]
+TESTS4 = ["TP", "TR", "TL"]      # round 4: pseudolikelihood (rates + 1 pass), resampled / MLL magnitude test (rates + 2 passes)
+ALL_TESTS = TESTS + TESTS4
+TEST_SEED = 20240607
+# apply_mct: mainshock M8.4 ten days after the first generated event time; an event's time class is
+#   0 = before the mainshock (kept), 1 = one hour after it (completeness magnitude 4.89..4.94: only the 5.5 events stay),
+#   2 = 400 days later, beyond the critical time of 73.6 days (kept)
+MCT_MAIN_MAG = 8.4
+MCT_T0 = 1262304000000 + 10 * 86400000
+MCT_OFFSETS = [0, 10 * 86400000 + 3600000, 410 * 86400000]
 MAG_CUT = 4.5
 MAGS = [4.0, 5.0]
 
@@ -129,7 +157,7 @@ def region_kind(case):
 def own_bin(case, ev, origins):
     """flat bin of the event on the grid of the region the catalog is bound to (information for the model only)"""
     kind, _ = region_kind(case)
-    cell, mag = ev
+    cell, mag = ev[0], ev[1]
     if kind is None or cell < 0:
         return bin_of(case, ev)
     reg = foreign_region(case["nx"], case["ny"], kind)
@@ -156,28 +184,41 @@ def is_variant(case):
 
 def event_row(case, ci, ei, ev, origins):
     """(event_id, time_ms, lat, lon, depth, mag) of a generated event"""
-    cell, mag = ev
+    cell, mag = ev[0], ev[1]
     if cell < 0:      # outside the region (only generated when the spatial filter is applied)
         lon, lat = 7.05 + 0.1 * (-cell), -3.05
     else:
         lon, lat = float(origins[cell][0]) + 0.05, float(origins[cell][1]) + 0.05
-    t = 1262304000000 + 1000 * (100 * ci + ei)   # 2010-01-01 + seconds
+    t = 1262304000000 + 1000 * (100 * ci + ei) + MCT_OFFSETS[tclass_of(ev)]   # 2010-01-01 + seconds
     return (f"c{ci}e{ei}", t, lat, lon, 10.0, float(mag))
 
 
+def tclass_of(ev):
+    return ev[2] if len(ev) > 2 else 0
+
+
+def raw_flags(ev):
+    """what each configured filter decides about a generated event, independently of the configuration:
+    (satisfies 'magnitude >= 4.5', survives apply_mct for the M8.4 mainshock, lies inside the region)"""
+    cell, mag = ev[0], ev[1]
+    return (mag >= MAG_CUT, not (tclass_of(ev) == 1 and mag < 5.0), cell >= 0)
+
+
 def keep_of(case, ev):
-    cell, mag = ev
+    pf, pm, ps = raw_flags(ev)
     if not case["apply_filters"]:
         return True
-    if case["mag_filter"] and not (mag >= MAG_CUT):
+    if case["mag_filter"] and not pf:
         return False
-    if case["filter_spatial"] and cell < 0:
+    if case.get("mct") and not pm:
+        return False
+    if case["filter_spatial"] and not ps:
         return False
     return True
 
 
 def bin_of(case, ev):
-    cell, mag = ev
+    cell, mag = ev[0], ev[1]
     mb = 0 if mag < 5.0 else 1
     return (max(cell, 0)) * len(MAGS) + mb
 
@@ -235,9 +276,20 @@ def build_forecast(case, tmpdir):
     for ci, evs in enumerate(case["cats"]):
         for ei, ev in enumerate(evs):
             row = event_row(case, row_ci(case, ci), ei, ev, origins)
-            table[row[0]] = (keep_of(case, ev), bin_of(case, ev), row)
+            # last entry: the `keep` flag as the model carries it (round 4: the conjunction of the configured predicates,
+            # a property of the event whether or not apply_filters is on)
+            shown = keep_of(dict(case, apply_filters=True), ev) if case.get("round4") else keep_of(case, ev)
+            table[row[0]] = (keep_of(case, ev), bin_of(case, ev), row, shown)
     kw = dict(region=region, filters=filters, filter_spatial=case["filter_spatial"], apply_filters=case["apply_filters"],
               name="f")
+    if case.get("mct"):
+        import datetime
+        from csep.models import Event
+        kw["apply_mct"] = True
+        kw["event"] = Event(id="mainshock", magnitude=MCT_MAIN_MAG, latitude=0.05, longitude=0.05,
+                            time=datetime.datetime.fromtimestamp(MCT_T0 / 1000, tz=datetime.timezone.utc))
+    if case.get("ncat_given") is not None and case["source"] not in ("list", "list-ncat"):
+        kw["n_cat"] = case["ncat_given"]     # a streamed forecast: the user's number, right or wrong
     kind, via_other = region_kind(case)
     foreign = foreign_region(case["nx"], case["ny"], kind) if kind else None
     src = case["source"]
@@ -249,7 +301,7 @@ def build_forecast(case, tmpdir):
         else:
             cats = make_catalogs(case, origins, foreign, filters)
         if src == "list-ncat":
-            kw["n_cat"] = len(cats)
+            kw["n_cat"] = case.get("ncat_wrong", len(cats))
         fore = CatalogForecast(catalogs=cats, **kw)
     elif src in ("loader-store", "loader-nostore", "gen-store"):
         unbound = case.get("cat_region") == "unbound"
@@ -343,7 +395,7 @@ def run_history(run, case, tmpdir, drv=None, pending=None, record=True):
 
     for k, op in enumerate(case["ops"]):
         try:
-            if op in ("P", "N", "TS", "TM"):
+            if op in ("P",) or op in ALL_TESTS:
                 if op == "P":
                     cats = [c for c in fore]
                     got_ids = [int(c.catalog_id) if c.catalog_id is not None else None for c in cats]
@@ -361,21 +413,32 @@ def run_history(run, case, tmpdir, drv=None, pending=None, record=True):
                                              float(row["magnitude"])) != (g[2][1], g[2][2], g[2][3], g[2][5]):
                                 fail(f"op {k}: event {eid} was altered")
                     outs.append("c" + (";".join(
-                        f"{'none' if i is None else i}=" + (",".join(f"{1 if table[e][0] else 0}:{table[e][1]}" for e in evs) if evs else "-")
+                        f"{'none' if i is None else i}=" + (",".join(f"{1 if table[e][3] else 0}:{table[e][1]}" for e in evs) if evs else "-")
                         for i, evs in zip(got_ids, got_ev)) if cats else "-"))
                 else:
                     if obs is None:
                         obs = make_obs(case, region, origins)
-                    fn = dict(N=ce.number_test, TS=ce.spatial_test, TM=ce.magnitude_test)[op]
-                    with contextlib.redirect_stdout(io.StringIO()):
-                        res = fn(fore, obs, verbose=False)
-                    key = (tuple(float(v) for v in res.test_distribution), res.observed_statistic,
-                           tuple(res.quantile), res.status)
+                    fn, fkw = test_fn(ce, op)
+                    try:
+                        with contextlib.redirect_stdout(io.StringIO()), numpy.errstate(all="ignore"):
+                            res = fn(fore, obs, verbose=False, **fkw)
+                        key = result_key(res)
+                    except Exception as e:
+                        if op not in TESTS4:
+                            raise
+                        # the evaluation itself rejects the forecast (e.g. no event at all: NaN probabilities). That is
+                        # C10's business as long as a fresh forecast of the once-filtered catalogs is rejected alike;
+                        # the history ends here (the evaluation left its pass unfinished: known finding D27)
+                        key = ("exc", type(e).__name__)
                     if op not in ref_results:
                         ref_results[op] = reference_result(case, op, tmpdir)
                     if not same_result(key, ref_results[op]):
                         fail(f"op {k}: {fn.__name__} on the used forecast gives {key}, on a fresh forecast of the "
                              f"once-filtered catalogs {ref_results[op]}")
+                    if key[0] == "exc":
+                        run.count("evaluation rejects the forecast (fresh forecast alike)")
+                        outs.append(f"x@{fore.n_cat if fore.n_cat is not None else 'none'}")
+                        break
                     outs.append("t")
             elif op == "E":
                 ec = [int(v) for v in fore.get_event_counts(verbose=False)]
@@ -403,7 +466,7 @@ def run_history(run, case, tmpdir, drv=None, pending=None, record=True):
                 exp = [sum(tot[m::nm]) for m in range(nm)]
                 ks = check_marginal(mc, exp, k, "magnitude_counts")
                 outs.append("r" + ",".join(map(str, ks)) + f"/{fore.n_cat}")
-            if op in ("R", "S", "M", "TS", "TM") and first_rates is None and fore.expected_rates is not None:
+            if op in ("R", "S", "M", "TS", "TM", "TP", "TR", "TL") and first_rates is None and fore.expected_rates is not None:
                 first_rates = fore.expected_rates
                 first_rates_vals = numpy.array(first_rates.data, dtype=float).copy()
                 check_rates_matrix(first_rates.data, k)
@@ -421,6 +484,20 @@ def run_history(run, case, tmpdir, drv=None, pending=None, record=True):
     return outs, fails
 
 
+def test_fn(ce, op):
+    """the catalog evaluation behind an operation letter + its extra keyword arguments"""
+    fn = dict(N=ce.number_test, TS=ce.spatial_test, TM=ce.magnitude_test, TP=ce.pseudolikelihood_test,
+              TR=ce.resampled_magnitude_test, TL=ce.MLL_magnitude_test)[op]
+    return fn, (dict(seed=TEST_SEED) if op in ("TR", "TL") else {})
+
+
+def result_key(res):
+    if res is None:                 # an evaluation may decline (e.g. pseudolikelihood on an undersampled forecast)
+        return ((), None, (), "declined")
+    return (tuple(float(v) for v in numpy.asarray(res.test_distribution, dtype=float).ravel()), res.observed_statistic,
+            tuple(res.quantile), res.status)
+
+
 def reference_result(case, op, tmpdir):
     """the same catalog test on a fresh in-memory forecast built from the once-filtered catalogs"""
     from csep.core import catalog_evaluations as ce
@@ -433,13 +510,13 @@ def reference_result(case, op, tmpdir):
         cats.append(CSEPCatalog(data=rows, catalog_id=ci, region=region))
     fore = CatalogForecast(catalogs=cats, region=region, n_cat=len(cats), name="ref")
     obs = make_obs(case, region, origins)
-    fn = dict(N=ce.number_test, TS=ce.spatial_test, TM=ce.magnitude_test)[op]
+    fn, fkw = test_fn(ce, op)
     try:
-        with contextlib.redirect_stdout(io.StringIO()):
-            res = fn(fore, obs, verbose=False)
+        with contextlib.redirect_stdout(io.StringIO()), numpy.errstate(all="ignore"):
+            res = fn(fore, obs, verbose=False, **fkw)
     except Exception as e:
         return ("exc", type(e).__name__)
-    return (tuple(float(v) for v in res.test_distribution), res.observed_statistic, tuple(res.quantile), res.status)
+    return result_key(res)
 
 
 def same_result(a, b):
@@ -454,7 +531,44 @@ def same_result(a, b):
             and len(a[2]) == len(b[2]) and all(close(x, y) for x, y in zip(a[2], b[2])) and a[3] == b[3])
 
 
+def stream_arg(case):
+    """(kind, a) of the initial state for the driver"""
+    if case["source"] == "list":
+        return "list", "none"
+    if case["source"] == "list-ncat":
+        return "list", str(len(case["cats"]))
+    store = "1" if case["source"] in ("file-store", "loader-store", "gen-store") else "0"
+    if case.get("ncat_given") is not None:
+        return "streamn", f"{store}:{case['ncat_given']}"
+    return "stream", store
+
+
+def model_line4(case):
+    """round 4: raw events `<pf><pm><ps>:bin[:own]` + the filter configuration; the model applies the three filters"""
+    _, origins = make_region(case["nx"], case["ny"])
+
+    def rev(ev, own):
+        pf, pm, ps = raw_flags(ev)
+        return f"{int(pf)}{int(pm)}{int(ps)}:{bin_of(case, ev)}" + (f":{own_bin(case, ev, origins)}" if own else "")
+    if is_variant(case):
+        kind, _ = region_kind(case)
+        grid = FOREIGN[kind] if kind else 0
+        carries = 1 if case.get("cat_filters") in ("same", "same-object") else 0
+        cats = ";".join(f"{'none' if i is None else i}.{grid}.{carries}=" +
+                        (",".join(rev(ev, True) for ev in evs) if evs else "-")
+                        for i, evs in zip(cat_ids(case), case["cats"]))
+    else:
+        cats = ";".join((",".join(rev(ev, False) for ev in evs) if evs else "-") for evs in case["cats"])
+    nb = case["nx"] * case["ny"] * len(MAGS)
+    kind, a = stream_arg(case)
+    cfg = f"{int(bool(case['mag_filter']))}{int(bool(case.get('mct')))}{int(bool(case['filter_spatial']))}"
+    return (f"c13_runcfg {kind} {a} {1 if case['apply_filters'] else 0} {cfg} {nb} {len(MAGS)} {cats} "
+            f"{','.join(case['ops'])}")
+
+
 def model_line(case):
+    if case.get("round4"):
+        return model_line4(case)
     if is_variant(case):
         # <id|none>.<grid>.<carries>=<keep:cell:own,...> : what the catalogs bring along (the model never reads it)
         _, origins = make_region(case["nx"], case["ny"])
@@ -492,6 +606,13 @@ def do_history(run, drv, pending, case, tmpdir):
         for key in variant_keys(case):
             run.count(key)
     run.count(f"len-{len(case['ops'])}")
+    if case.get("round4"):
+        run.count("r4:apply_mct=" + ("on" if case.get("mct") else "off") + ("" if case["apply_filters"] else "(filters off)"))
+        if case.get("ncat_given") is not None:
+            g, n = case["ncat_given"], len(case["cats"])
+            run.count("r4:n_cat given " + ("smaller" if g < n else "larger" if g > n else "equal"))
+        for o in set(case["ops"]) & set(TESTS4):
+            run.count("r4:op " + o)
     for f in fails[:1]:
         run.oracle_failure(case, f)
     i = drv.ask(model_line(case))
@@ -503,6 +624,10 @@ def flush(run, drv, pending):
     drv.lines.clear()
     for item in pending:
         case, i, outs = item[:3]
+        if len(item) == 4 and item[3] == "wrong-ncat":
+            if out[i] != outs[0]:
+                run.mismatch(case, outs, out[i])
+            continue
         if len(item) == 4:     # aborted pass: one observable
             if out[i] != outs[0]:
                 run.mismatch(case, outs, out[i])
@@ -510,11 +635,59 @@ def flush(run, drv, pending):
         model = out[i].split("|")
         impl = list(outs)
         # catalog tests: the model shows the catalogs the test iterated over, the implementation only its result
-        model = [("t@" + m.split("@")[1]) if op in TESTS and not m.startswith("e") else m
+        model = [("t@" + m.split("@")[1]) if op in ALL_TESTS and not m.startswith("e") else m
                  for m, op in zip(model, case["ops"])]
+        if impl and impl[-1].startswith("x"):     # the history ended in an evaluation that rejects the forecast
+            impl, model = impl[:-1], model[:len(impl) - 1]
+            if impl != model:
+                run.mismatch(case, impl, model)
+            continue
         if impl != model[:len(impl)] or (len(impl) < len(model) and not impl[-1].startswith("e")):
             run.mismatch(case, impl, model)
     pending.clear()
+
+
+# ----------------------------------------------------------------------------- wrong n_cat for an in-memory list
+def do_wrong_ncat(run, drv, pending, case, tmpdir):
+    """an in-memory list constructed with an n_cat that is not its length (outside the property's hypotheses). The code
+    as it stands fails the assert of __next__ in every operation (theorem list_wrong_ncat_always_fails, compared with
+    the model); a tolerant rewrite that corrects the number must then satisfy the whole specification. Anything in
+    between (some operations work, others do not; other exceptions) is reported."""
+    fore, table, region, origins = build_forecast(case, tmpdir)
+    m = case["ncat_wrong"]
+    outs = []
+    for op in case["ops"]:
+        try:
+            if op == "P":
+                [c for c in fore]
+            elif op == "E":
+                fore.get_event_counts(verbose=False)
+            elif op == "R":
+                fore.get_expected_rates()
+            elif op == "S":
+                fore.spatial_counts()
+            elif op == "M":
+                fore.magnitude_counts()
+            outs.append("ok")
+        except AssertionError:
+            outs.append("e")
+        except Exception as e:
+            outs.append(type(e).__name__)
+        outs[-1] += f"@{fore.n_cat if fore.n_cat is not None else 'none'}"
+    if all(o.startswith("ok") for o in outs):
+        run.count("list-wrong-ncat: tolerated by the implementation (checked against the specification)")
+        do_history(run, drv, pending, dict(case, kind="history"), tmpdir)
+        return
+    run.case(case, ("wrong-ncat", m, json.dumps(case["cats"]), tuple(case["ops"])))
+    run.count("list-wrong-ncat: AssertionError in every operation")
+    if not all(o == f"e@{m}" for o in outs):
+        run.oracle_failure(case, f"an in-memory list of {len(case['cats'])} catalogs constructed with n_cat={m}: the "
+                                 f"operations {case['ops']} give {outs}: neither rejected throughout nor handled throughout")
+    nb = case["nx"] * case["ny"] * len(MAGS)
+    cats = ";".join((",".join(f"{1 if keep_of(case, ev) else 0}:{bin_of(case, ev)}" for ev in evs) if evs else "-")
+                    for evs in case["cats"])
+    i = drv.ask(f"c13_run list {m} {1 if case['apply_filters'] else 0} {nb} {len(MAGS)} {cats} {','.join(case['ops'])}")
+    pending.append((case, i, ["|".join(outs)], "wrong-ncat"))
 
 
 # ----------------------------------------------------------------------------- aborted pass (finding)
@@ -526,24 +699,37 @@ def do_aborted(run, drv, pending, case, tmpdir):
     the next complete for-loop must still yield every catalog"""
     fore, table, region, origins = build_forecast(case, tmpdir)
     n = len(case["cats"])
-    k0 = min(ci for ci, evs in enumerate(case["cats"]) if any(ev[0] < 0 for ev in evs))
-    run.case(case, ("aborted", case["source"], json.dumps(case["cats"])))
-    run.count(f"aborted-{case['source']}")
-    raised = None
-    try:
-        fore.get_expected_rates()
-    except Exception as e:
-        raised = type(e).__name__
-    if raised is None:
-        run.oracle_failure(case, "get_expected_rates accepted an event outside the region")
-        return
+    if case.get("break_after"):
+        # round 4: a for-loop left by `break` behind the k-th catalog (1 <= k <= n; k = n: behind the last catalog,
+        # before the loop would have seen StopIteration)
+        k0 = case["break_after"] - 1
+        run.case(case, ("aborted-break", case["source"], k0, json.dumps(case["cats"])))
+        run.count(f"aborted-by-break-{case['source']}")
+        for i, _c in enumerate(fore):
+            if i == k0:
+                break
+        raised = f"break behind catalog {k0}"
+    else:
+        k0 = min(ci for ci, evs in enumerate(case["cats"]) if any(ev[0] < 0 for ev in evs))
+        run.case(case, ("aborted", case["source"], json.dumps(case["cats"])))
+        run.count(f"aborted-{case['source']}")
+        raised = None
+        try:
+            fore.get_expected_rates()
+        except Exception as e:
+            raised = type(e).__name__
+        if raised is None:
+            run.oracle_failure(case, "get_expected_rates accepted an event outside the region")
+            return
     cats = [c for c in fore]
     ids = [int(c.catalog_id) for c in cats]
     evs = [canon_cat(c, table) for c in cats]
-    impl = "c" + (";".join(f"{i}=" + (",".join(f"{1 if table[e][0] else 0}:{table[e][1]}" for e in ev) if ev else "-")
+    impl = "c" + (";".join(f"{i}=" + (",".join(f"{1 if table[e][3] else 0}:{table[e][1]}" for e in ev) if ev else "-")
                            for i, ev in zip(ids, evs)) if ids else "-") + f"@{fore.n_cat}"
     if ids != list(range(n)):
-        run.oracle_failure(case, f"after get_expected_rates raised {raised} at catalog {k0} the next complete for-loop "
+        run.oracle_failure(case, (f"after a for-loop was left by {raised}" if case.get("break_after") else
+                                  f"after get_expected_rates raised {raised} at catalog {k0}") +
+                                 f" the next complete for-loop "
                                  f"yields catalogs {ids}, not 0..{n - 1}: the aborted pass is not restarted",
                            signature=ABORT_SIG)
     line = model_line(dict(case, ops=[])).rsplit(" ", 1)[0].replace("c13_run", "c13_abort") + f" {k0 + 1}"
@@ -553,6 +739,11 @@ def do_aborted(run, drv, pending, case, tmpdir):
 
 def gen_aborted(rng):
     src = rng.choice(["list", "list-ncat", "file-store", "file-nostore"])
+    if rng.random() < 0.5:      # round 4: left by `break` behind the k-th catalog, filters on or off
+        w = gen_world(rng, src, rng.random() < 0.5, rng.random() < 0.5)
+        w["break_after"] = rng.randint(1, len(w["cats"]))
+        w["kind"] = "aborted"
+        return w
     w = gen_world(rng, src, False, False)
     while len(w["cats"]) < 2:
         w = gen_world(rng, src, False, False)
@@ -663,10 +854,45 @@ def gen_variant(rng, src, af, sp, dims):
     return w
 
 
+# ----------------------------------------------------------------------------- round 4
+ALL_SOURCES = ["list", "list-ncat", "file-store", "file-nostore", "loader-store", "loader-nostore", "gen-store"]
+
+
+def gen_world4(rng, src, af, sp, mct):
+    """a world with time classes (apply_mct), optionally a user-given n_cat for a streamed source"""
+    w = gen_world(rng, src, af, sp)
+    guard = "apply_mct:empty-catalog-reaches-apply_mct" in AWAITING_DECISION and mct and af
+    for evs in w["cats"]:
+        tcs = sorted(rng.choice([0, 0, 1, 1, 1, 2]) for _ in evs)     # sorted in time, as apply_mct assumes
+        for ev, tc in zip(evs, tcs):
+            ev.append(tc)
+        if guard and not any(all(raw_flags(ev)) for ev in evs):
+            # see AWAITING_DECISION: apply_mct must never see an empty catalog. An in-memory list is filtered again on
+            # every pass, so one event has to survive ALL configured filters (statement, apply_mct, spatial filter)
+            evs.append([rng.randrange(w["nx"] * w["ny"]), 5.5, max([2] if not evs else [tclass_of(e) for e in evs])])
+    w["mct"] = bool(mct)
+    w["round4"] = True
+    if src not in ("list", "list-ncat") and rng.random() < 0.6:
+        n = len(w["cats"])
+        w["ncat_given"] = rng.choice([n, max(0, n - 1), n + 1, n + rng.randint(2, 5), 0, 1])
+    return w
+
+
+def gen_ops4(rng, w, lo, hi):
+    L = rng.randint(lo, hi)
+    tests = ALL_TESTS if tests_allowed(w) else []
+    return [rng.choice(TESTS4 if (tests and rng.random() < 0.3) else tests if (tests and rng.random() < 0.15) else OPS)
+            for _ in range(L)]
+
+
 def gen_ops(rng, w, lo, hi, p_test=0.25):
     L = rng.randint(lo, hi)
     pool = OPS + TESTS if tests_allowed(w) else OPS
     return [rng.choice(pool if rng.random() < p_test else OPS) for _ in range(L)]
+
+
+def dispatch(case):
+    return {"aborted": do_aborted, "wrong-ncat": do_wrong_ncat}.get(case.get("kind"), do_history)
 
 
 def run(run, rng, tier):
@@ -676,7 +902,7 @@ def run(run, rng, tier):
     try:
         for path in sorted(glob.glob(os.path.join(VERIF, "corpus", "C13", "*.json"))):
             case = json.load(open(path))
-            (do_aborted if case.get("kind") == "aborted" else do_history)(run, drv, pending, case, tmpdir)
+            dispatch(case)(run, drv, pending, case, tmpdir)
             run.count("corpus")
         quick = tier == "quick"
         # exhaustive: every length-4 sequence over the five forecast operations (shorter ones are prefixes),
@@ -746,8 +972,43 @@ def run(run, rng, tier):
         flush(run, drv, pending)
         run.extra["histories_custom_loader_ids_regions_carried_filters"] = n_v
         run.extra["awaiting_decision"] = list(AWAITING_DECISION)
+        # round 4: more evaluations in the alphabet, user-given n_cat on streamed sources, apply_mct
+        n_4 = 0
+        for src in ALL_SOURCES:
+            for af in (False, True):
+                for sp in (False, True):
+                    for mct in (False, True):
+                        if quick:
+                            seqs = [None] * 6
+                        else:
+                            seqs = list(itertools.product(["P", "E", "R"] + TESTS4, repeat=2)) + [None] * 60
+                        for ops in seqs:
+                            w = gen_world4(rng, src, af, sp, mct)
+                            w["ops"] = list(ops) if ops is not None else gen_ops4(rng, w, 2, 5)
+                            do_history(run, drv, pending, w, tmpdir)
+                            n_4 += 1
+            flush(run, drv, pending)
+        for _ in range(300 if quick else 6000):
+            src = rng.choice(ALL_SOURCES)
+            w = gen_world4(rng, src, rng.random() < 0.7, rng.random() < 0.5, rng.random() < 0.6)
+            if src not in ("file-store", "file-nostore") and rng.random() < 0.4:
+                set_variant(w, rng, *rng.choice(VARIANTS))
+            w["ops"] = gen_ops4(rng, w, 2, 8)
+            do_history(run, drv, pending, w, tmpdir)
+            n_4 += 1
+        flush(run, drv, pending)
+        for _ in range(40 if quick else 600):
+            w = gen_world(rng, "list-ncat", rng.random() < 0.5, rng.random() < 0.5)
+            n = len(w["cats"])
+            w["ncat_wrong"] = rng.choice([m for m in (0, 1, n - 1, n + 1, n + 3, 2 * n) if m != n and m >= 0])
+            w["kind"] = "wrong-ncat"
+            w["ops"] = [rng.choice(OPS) for _ in range(rng.randint(1, 5))]
+            do_wrong_ncat(run, drv, pending, w, tmpdir)
+            n_4 += 1
+        flush(run, drv, pending)
+        run.extra["histories_round4_evaluations_ncat_applymct"] = n_4
         # deliberate: a pass aborted by an exception (finding, see notes/C13.md)
-        for _ in range(8 if quick else 60):
+        for _ in range(16 if quick else 120):
             do_aborted(run, drv, pending, gen_aborted(rng), tmpdir)
         flush(run, drv, pending)
         # sampled long histories
@@ -766,7 +1027,7 @@ def replay(run, payload):
     drv, pending = Driver(), []
     tmpdir = tempfile.mkdtemp(prefix="c13_")
     try:
-        (do_aborted if case.get("kind") == "aborted" else do_history)(run, drv, pending, case, tmpdir)
+        dispatch(case)(run, drv, pending, case, tmpdir)
         flush(run, drv, pending)
     finally:
         shutil.rmtree(tmpdir, ignore_errors=True)
